@@ -40,6 +40,10 @@ LINTER_SECTIONS = [
     "stateless-class",
     "pipeline",
     "lazy-ignores",
+    "performance",
+    "unwrap-abuse",
+    "clone-abuse",
+    "blocking-async",
 ]
 
 
@@ -154,7 +158,9 @@ def identify_missing_sections(existing_config: dict, all_sections: list[str]) ->
     Returns:
         List of section names missing from existing config
     """
-    return [s for s in all_sections if s not in existing_config]
+    # The config loader treats "magic_numbers" and "magic-numbers" as the same section
+    existing = {str(key).replace("-", "_") for key in existing_config}
+    return [s for s in all_sections if s.replace("-", "_") not in existing]
 
 
 def _find_global_settings_position(content: str) -> int:
